@@ -423,3 +423,8 @@ K('C04', 'K2.index_height_after_reorg', 'teos', 'tx_index::verif_harness::c19_st
 K('C04', 'K2.index_height_after_disconnect', 'teos', 'tx_index::verif_harness::c19_step_n2_d0_disconnect', 'after a disconnection the remaining blocks keep their true heights', 'thorough')
 
 K('C02', 'P3.rebroadcast_sends_penalty', 'teos', _r + 'c04_p4_rebroadcast_stale_boundary_rejected', 'what is re-submitted for a stale tracker is its penalty transaction (and only that)')
+M('C01', 'M2.no_missed_breach', 'missed_breach', 'an appointment accepted while the block containing its dispute is being processed is never left unwatched: the cache look-up and the store are one critical section, and the block\'s cache update precedes its database look-up')
+PROPS['C01']['assumptions'] = PROPS['C01']['assumptions'] + M_ASSUME[:3]
+K('C07', 'P2.already_triggered_no_charge', 'teos', _w + 'c06_add_already_triggered', 'a submission that bounces because the appointment was already responded to changes no balance (memory, database) and writes nothing')
+K('C01', 'P7.already_triggered', 'teos', _w + 'c06_add_already_triggered', 'an appointment that was already responded to cannot be replaced (AlreadyTriggered), nothing is written or sent', 'thorough')
+K('C06', 'P2.already_triggered', 'teos', _w + 'c06_add_already_triggered', 'refused request (already triggered) changes nothing', 'thorough')
